@@ -62,6 +62,8 @@ func menu() []reload {
 		{Name: "missing", Cfg: srv.Cfg{Missing: true}},
 		{Name: "malformed", Cfg: srv.Cfg{Raw: "services:\n  - listeners: [\n"}},
 		{Name: "bad-type", Cfg: srv.Cfg{Services: []srv.Svc{svc([]srv.Key{kA}, srv.Ln{Type: "quic", Addr: "127.0.0.1:9000"})}}},
+		// a listener type that differs from a valid one only in its case (invalid as a whole)
+		{Name: "bad-type-case", Cfg: srv.Cfg{Services: []srv.Svc{svc([]srv.Key{kA, kC}, srv.Ln{Type: "TCP", Addr: "127.0.0.1:9000"}, udp("127.0.0.1:9000"))}}},
 		{Name: "hostname", Cfg: srv.Cfg{Services: []srv.Svc{svc([]srv.Key{kA}, tcp("localhost:9000"))}}},
 		{Name: "dup-listener", Cfg: srv.Cfg{Services: []srv.Svc{svc([]srv.Key{kA}, tcp("127.0.0.1:9007")), svc([]srv.Key{kB}, tcp("127.0.0.1:9007"))}}},
 		{Name: "bad-cipher-0", Cfg: two([]srv.Key{kA, kBad}, []srv.Key{kC})},
